@@ -166,17 +166,39 @@ def find_pos(rows, off):
     return None
 
 
+def _with_zero_width_before(row, offs, strict_on_cells, col=None):
+    """add the zero-width characters drawn at the same column directly before a chosen position.
+
+    A zero-width character has no cell of its own; it is drawn at the column of the position that follows
+    it, so the statement cannot tell the two offsets apart.  Exception (strict_on_cells): when col lies inside
+    the cell of a positive-width character, "a click on a character's cell places the cursor on that
+    character" decides, and only that character is accepted.  Positions at other columns are never added."""
+    out = set(offs)
+    for i, e in enumerate(row):
+        if e[1] not in offs:
+            continue
+        x, _off, w, marker = e
+        if strict_on_cells and not marker and w > 0 and col is not None and x <= col < x + w:
+            continue
+        j = i - 1
+        while j >= 0 and not row[j][3] and row[j][2] == 0 and row[j][0] == x:
+            out.add(row[j][1])
+            j -= 1
+    return out
+
+
 def pick(row, col):
     """offsets on this row acceptable for column col (int | LEFT | RIGHT); empty set if none"""
     if not row:
         return set()
     cands = [e for e in row if e[3] or e[2] > 0]
-    if col == LEFT:
-        return {row[0][1]} | ({cands[0][1]} if cands else set())
-    if col == RIGHT:
-        return {cands[-1][1]} if cands else {row[-1][1]}
     if not cands:
-        return {row[0][1]}
+        # the row shows zero-width characters only: every offset of it sits at the same column
+        return {e[1] for e in row}
+    if col == LEFT:
+        return _with_zero_width_before(row, {cands[0][1]}, False) | {row[0][1]}
+    if col == RIGHT:
+        return _with_zero_width_before(row, {cands[-1][1]}, False) if cands[-1][3] else {cands[-1][1]}
     best = None
     out = set()
     for x, off, w, _m in cands:
@@ -186,16 +208,7 @@ def pick(row, col):
             best, out = d, {off}
         elif d == best:
             out.add(off)
-    if best:
-        # column outside every cell: zero-width characters drawn at the same column directly before the
-        # nearest position are indistinguishable from it on screen -> also acceptable
-        for i, e in enumerate(row):
-            if e[1] in out:
-                j = i - 1
-                while j >= 0 and not row[j][3] and row[j][2] == 0 and row[j][0] == e[0]:
-                    out.add(row[j][1])
-                    j -= 1
-    return out
+    return _with_zero_width_before(row, out, True, col)
 
 
 def cell_owner(row, col):
